@@ -45,6 +45,16 @@ class LimitGatedScheduler {
           unlimited_(res == std::numeric_limits<ssize_t>::max()),
           serial_(res == 1) {}
 
+    ~Impl() {
+      // After an exception, in-flight tasks of the previous stage may still have queued items here
+      // after wait() discarded what it found; nobody will run them any more. A OnceFunction does
+      // not release its functor on destruction, so discard them explicitly.
+      OnceFunction discard;
+      while (queue_.try_dequeue(discard)) {
+        discard.cleanupNotRun();
+      }
+    }
+
     template <typename F>
     void schedule(F&& fPipe) {
       outstanding_.fetch_add(1, std::memory_order_acq_rel);
